@@ -152,11 +152,17 @@ def main(repo, outdir):
         t = src(cp, "BasicBlock.compile")
         want = ("prefix = [] body = self._exprs if self._config.common_subexpression_elimination: prefix, body = cse(body, symbols=(Symbol(f'_t{i}') for i in count())) "
                 "for target, expr in prefix: assert isinstance(target, Symbol) if self._config.common_subexpression_elimination: expr = simplify(expr) "
-                "cc_expr = ccode(expr) yield MemberDeclaration('double', target, cc_expr) "
+                "cc_expr = _ccode(expr) yield MemberDeclaration('double', target, cc_expr) "
                 "for target, expr in zip(self._targets, body): if self._config.common_subexpression_elimination: expr = simplify(expr) "
-                "cc_expr = ccode(expr) yield MemberDeclaration('', target, cc_expr)")
+                "cc_expr = _ccode(expr) yield MemberDeclaration('', target, cc_expr)")
         if re.sub(r"\s+", " ", want) not in re.sub(r"\s+", " ", t):
             raise Untranslatable("cpp.BasicBlock.compile changed:\n" + t)
+        # the printer: value-preserving rewriting of sech / csch / coth as reciprocals, then sympy's ccode
+        t = src(cp, "_ccode")
+        want = ("expr = sympify(expr) expr = expr.replace(sech, lambda arg: 1 / cosh(arg)) expr = expr.replace(csch, lambda arg: 1 / sinh(arg)) "
+                "expr = expr.replace(coth, lambda arg: 1 / tanh(arg)) return ccode(expr)")
+        if re.sub(r"\s+", " ", want) not in re.sub(r"\s+", " ", t):
+            raise Untranslatable("cpp._ccode changed:\n" + t)
         L.append("Definition cpp_cse_prefix_first : bool := true.")
         # ---------------- call signatures of the generated filter (C12)
         def yields(fn):
